@@ -320,6 +320,14 @@ class Series(_HasIndex):
 
     to_list = tolist
 
+    @property
+    def is_monotonic_increasing(self):
+        return s_and(*[SBool(core._z(a) <= core._z(b)) for a, b in zip(self._v, self._v[1:])]) if len(self._v) > 1 else True
+
+    @property
+    def is_monotonic_decreasing(self):
+        return s_and(*[SBool(core._z(a) >= core._z(b)) for a, b in zip(self._v, self._v[1:])]) if len(self._v) > 1 else True
+
     def sample(self, frac=1, random_state=None):
         if frac != 1:
             raise Unsupported("sample(frac != 1)")
